@@ -311,12 +311,14 @@ Inv_TableBijective ==
                                           /\ \A i \in 1..n : table[h[Name(i)]] = i - 1
 
 \* arithmetic of the section (only meaningful where the section is built)
-Inv_SectionLayout ==
-    (phase = "done" /\ sz.fits) => /\ sz.dirmap % 4 = 0              \* the guint16 table is aligned
-                                   /\ sz.dirmap >= 4 + sz.mph        \* the MPH does not overlap the table
-                                   /\ sz.dirmap + 2 * sz.n <= sz.required
-                                   /\ sz.required % 4 = 0            \* the next section / file end stays 4-aligned
-                                   /\ sz.required - sz.packed < 4
+Layout(s) == /\ s.dirmap % 4 = 0              \* the guint16 table is aligned
+             /\ s.dirmap >= 4 + s.mph         \* the MPH does not overlap the table
+             /\ s.dirmap + 2 * s.n <= s.required
+             /\ s.required % 4 = 0            \* the next section / file end stays 4-aligned
+             /\ s.required - s.packed < 4
+Inv_SectionLayout == (phase = "done" /\ sz.fits) => Layout(sz)
+\* the same n with a 32-bit `required_size` (the one-word change): always built, same layout
+Inv_Wide32 == phase = "done" => (Fits(n, 32) /\ Layout(SizeRecord(n, 32)))
 Inv_EntryIndexFits == phase = "done" => EntryIndexFits(n)
 \* exact failure set of the arithmetic with SizeBits: n fails iff n >= Boundary
 Inv_BoundaryExact  == (phase = "done" /\ Boundary # 0) => (sz.fits <=> n < Boundary)
